@@ -109,6 +109,14 @@ Proof.
       subst; specialize (A2 _ Hn); lia.
 Qed.
 
+(* ---- str methods the generated code uses (strings are lists of code points < 256) ---- *)
+(* "c" in s *)
+Fixpoint str_contains1 (c : Ascii.ascii) (s : string) : bool :=
+  match s with EmptyString => false | String d s' => Ascii.eqb d c || str_contains1 c s' end.
+(* s.isascii() *)
+Fixpoint str_isascii (s : string) : bool :=
+  match s with EmptyString => true | String d s' => Nat.leb (Ascii.nat_of_ascii d) 127 && str_isascii s' end.
+
 (* ---- string-keyed association lists standing for Python dicts ---- *)
 Section Dict.
   Context {V : Type}.
